@@ -226,6 +226,8 @@ RULES_TEXT = {
     "C01": "one case = one Check of a scripted property (template x seed x checks x minimization mode incl. deterministic cut); non-trivial = a failure was found and reported, so the report/persist/final-replay obligations were exercised",
     "C02": "one case = one Check with one failure kind in one callback context at one position (value-keyed test cases); non-trivial = the falsifying signal was actually raised in an executed test case",
     "C05": "one case = one Check of a (multi-site) scripted property; non-trivial = a failure was found and the minimizer ran (accept events checked for strict short-lex decrease, same site, result <= original)",
+    "C04": "one case = a three-run history of a property that fails after its draws (so every seed is recorded): Check with a fixed seed and no minimization (generation, reproduction with recording, final replay of the pruned recording); MakeFuzz on the words as recorded and on the pruned words; the same seed again after unrelated checks; non-trivial = a recording was made and replayed both ways",
+    "C13": "one case = one property with ~70 byte inputs (all lengths 0..24 in 5 byte patterns, random inputs of 1..1000 bytes each repeated, extended by extra bytes, and explicitly zero-padded) plus a fail-file replay of the words of one input; non-trivial = at least two fuzz calls",
     "C06": "one case = a three-run history fail -> re-run without flags -> re-run in a clean directory with -rapid.failfile, over test names (unicode, separators, reserved characters, device names, long), bodies (incl. the empty bitstream) and captured outputs (nothing, arbitrary bytes, '#' lines, CR/LF, lines of 64 KiB..1 MiB); non-trivial = the first run saved a fail file",
     "C17": "one case = a two-run history with a fixed seed: clean directory, then the same with 1..5 unusable files (random bytes, truncations, byte mutations, huge/negative numbers, missing/extra fields, other and prefix-extended versions, comments only, empty, a directory, a 64 KiB+ line, now-passing, now-invalid, one-character word, octal/binary words); non-trivial = files were offered to the engine",
     "C07": "one case = a two-run history (run, then re-run with the printed seed / the same fixed seed); non-trivial = the first run reported a failure (or both runs completed for same-seed pairs)",
@@ -357,7 +359,42 @@ def c17(tier, seed, replay, keep):
     return engine_check("C17", tier, seed, replay, scen.c17, rule_ff, "4/C17", ASSUME_COMMON, keep)
 
 
-TABLE = {"C06": c06, "C17": c17, "C08": c08, "C10": c10, "C01": c01, "C02": c02, "C05": c05, "C07": c07, "C09": c09, "C11": c11}
+STREAM_EVENTS = ("sm.action.begin,sm.action.end,cinv.begin,cinv.end,scen.begin,scen.end,run.begin,run.end,h.phase,h.ff.load,h.fuzz.buf,fuzz.begin,fuzz.end,h.bits,h.overrun,"
+                 "h.prune.begin,h.prune.end,draw,call,inv.begin,inv.end,h.once.begin,h.once.end,harness.done")
+STREAM_MC = [("Stream", "StreamMC.cfg", "hold", ("quick", "thorough")),
+             ("Stream", "StreamMC_pinned.cfg", "violate", ("quick", "thorough"))]
+
+
+def rule_replays(evs):
+    fz = sum(1 for e in evs if e["ev"] == "fuzz.end")
+    pr = [e for e in evs if e["ev"] == "h.prune.begin"]
+    if not pr or fz < 2:
+        return None
+    disc = sum(1 for g_ in pr[0]["groups"] if g_["discard"])
+    return f"recording of {pr[0]['data']['n']} words with {disc} discarded groups replayed as recorded and pruned ({fz} fuzz calls)"
+
+
+def rule_fuzz(evs):
+    fz = [e for e in evs if e["ev"] == "fuzz.end"]
+    if len(fz) < 2:
+        return None
+    st = {}
+    for e in fz:
+        st[e["status"]] = st.get(e["status"], 0) + 1
+    return f"{len(fz)} fuzz calls: {st}"
+
+
+def c04(tier, seed, replay, keep):
+    return engine_check("C04", tier, seed, replay, scen.c04, rule_replays, "4/C04", ASSUME_COMMON[:2], keep, mc=STREAM_MC, events=STREAM_EVENTS,
+                        module="StreamTrace", cfg=INV_CFG)
+
+
+def c13(tier, seed, replay, keep):
+    return engine_check("C13", tier, seed, replay, scen.c13, rule_fuzz, "4/C13", ASSUME_COMMON[:2], keep, mc=STREAM_MC[:1], events=STREAM_EVENTS,
+                        module="StreamTrace", cfg=INV_CFG)
+
+
+TABLE = {"C04": c04, "C13": c13, "C06": c06, "C17": c17, "C08": c08, "C10": c10, "C01": c01, "C02": c02, "C05": c05, "C07": c07, "C09": c09, "C11": c11}
 
 
 def run(pid, tier, seed, replay, keep=False):
